@@ -359,6 +359,15 @@ class SR:
             return float(self.v)
         raise Unsupported("float() of a symbolic real (value would be concretised)")
 
+    def __format__(self, spec):
+        # log messages of the code under test format numbers; formatting is not part of any claim
+        if self.is_const:
+            try:
+                return format(float(self.v), spec)
+            except (ValueError, OverflowError):
+                pass
+        return "<symbolic>"
+
     def __int__(self):
         if self.is_const and self.v.denominator == 1:
             return int(self.v)
